@@ -350,13 +350,15 @@ func concOne(dir string, tr *core.Tracer, sc *concScen) (int, int, error) {
 		errs = append(errs, "flush: "+ferr.Error())
 	}
 	ev := core.Ev{"stuck": stuck, "kv": kv1}
-	if sc.Proj {
-		if p, err := fsckread.Read(d, "index", d, "data", false); err == nil {
-			ev["st"], ev["bk"] = p, nonzero(st.Index().VerifBuckets())
-		}
-	}
 	cerr := st.Close()
 	ev["reopen"] = errStr(cerr)
+	if sc.Proj {
+		// the files as Close left them (a freelist entry put after the last commit sits in the pool until
+		// Close flushes it); the bucket table is the saved snapshot
+		if p, err := fsckread.Read(d, "index", d, "data", false); err == nil {
+			ev["st"], ev["bk"] = p, p.Snap
+		}
+	}
 	kv2 := map[string]int{}
 	if st2, err := open(); err != nil {
 		ev["reopen"] = "open: " + err.Error()
